@@ -46,7 +46,9 @@ def ob_member(ctx):
     r = ctx.mk.seq("r", n, "ACGT")
     qn = ctx.mk.int("qn", 0, n + 2)
     q = ctx.mk.seq("q", qn, "ACGT", maxlen=n + 2)
-    k = ctx.mk.int("k")
+    from .c13 import _rotation_amount
+
+    k = _rotation_amount(ctx, "k", n)
     rec = st.record.CircularRecord(st.Seq(r), id="x")
     got = q in rec
     ctx.observe("in", got)
